@@ -75,9 +75,53 @@ def return_shape(prog, path):
                 if okc and len(cases) == len(dl):
                     res = ("cases", sw["expr"], cases)
         else:
-            res = ("expr", e)
+            res = ("expr", close_expr(fn, e))
     fn._cache["return_shape"] = res
     return res
+
+
+def push_field(b, k):
+    """b.k, pushed into the arms of an if-then-else / case term and simplified on tuples."""
+    if isinstance(b, tuple) and b:
+        if b[0] == "ite":
+            return ("ite", b[1], push_field(b[2], k), push_field(b[3], k))
+        if b[0] == "case":
+            return ("case", b[1], tuple((v, push_field(x, k)) for v, x in b[2]))
+        if b[0] == "agg" and b[1] == "tuple" and isinstance(k, int) and k < len(b[3]):
+            return b[3][k]
+    return ("field", b, k)
+
+
+def close_expr(fn, e, depth=0):
+    """e with the locals of fn that are assigned on several arms replaced by if-then-else / case terms, promoted enum constants made
+    explicit (("enumconst", adt, variant)) and field projections pushed into the arms: an expression a caller can evaluate without
+    access to fn's locals."""
+    from . import guards
+    if not isinstance(e, tuple) or not e or depth > 24:
+        return e
+    if e[0] == "local":
+        e2 = ite_expr(fn, e)
+        return close_expr(fn, e2, depth + 1) if e2 != e else e
+    if e[0] == "constitem":
+        pv = guards.promoted_value(fn, e)
+        if pv and pv[0] == "enum":
+            return ("enumconst", pv[1], pv[2])
+        return e
+    if e[0] == "ite":
+        return ("ite", close_expr(fn, e[1], depth + 1), close_expr(fn, e[2], depth + 1), close_expr(fn, e[3], depth + 1))
+    if e[0] == "case":
+        return ("case", close_expr(fn, e[1], depth + 1), tuple((v, close_expr(fn, x, depth + 1)) for v, x in e[2]))
+    if e[0] == "field":
+        return push_field(close_expr(fn, e[1], depth + 1), e[2])
+    out = [e[0]]
+    for c in e[1:]:
+        if isinstance(c, tuple) and c and isinstance(c[0], str):
+            out.append(close_expr(fn, c, depth + 1))
+        elif isinstance(c, tuple):
+            out.append(tuple(close_expr(fn, y, depth + 1) if isinstance(y, tuple) else y for y in c))
+        else:
+            out.append(c)
+    return tuple(out)
 
 
 def ite_expr(fn, e, depth=0):
@@ -199,6 +243,16 @@ class Model:
         s = self.seqsym(e)
         if s is not None:
             return env[s]
+        if isinstance(e, tuple) and e and e[0] == "ite":
+            return self.seqlen(e[2], env) if self.boolval(e[1], env) else self.seqlen(e[3], env)
+        if isinstance(e, tuple) and e and e[0] == "case":
+            for name, m in self.enumsyms:
+                if m(strip(e[1])):
+                    self.used.add(name)
+                    for var, sub in e[2]:
+                        if var == env.get(name):
+                            return self.seqlen(sub, env)
+            raise Unsupported("match on %s" % df.show(e[1], 60))
         if isinstance(e, tuple) and e and e[0] == "call" and e[1].endswith(("Index<I>>::index", "Index<I> for [T]>::index")) and len(e[2]) == 2:
             base, rg = e[2]
             if isinstance(rg, tuple) and rg[0] == "agg":
@@ -233,6 +287,16 @@ class Model:
             return e[1]
         if k == "cast":
             return self.val(e[1], env)
+        if k == "discr":
+            # the discriminant of an enum value, as a token that only supports == / != (a derived PartialEq compares these)
+            x = strip(e[1])
+            if isinstance(x, tuple) and x and x[0] == "enumconst":
+                return "variant:" + str(x[2])
+            for name, m in self.enumsyms:
+                if m(x):
+                    self.used.add(name)
+                    return "variant:" + str(env.get(name))
+            raise Unsupported("discriminant of %s" % df.show(x, 60))
         if k == "local" and self.fn is not None:
             e2 = ite_expr(self.fn, e)
             if e2 != e:
@@ -274,6 +338,15 @@ class Model:
             return r != neg
         if isinstance(e, tuple) and e and e[0] == "call" and e[1].endswith("::is_empty") and len(e[2]) == 1:
             return (self.seqlen(e[2][0], env) == 0) != neg
+        if isinstance(e, tuple) and e and e[0] == "call" and e[1].split("::")[-1] in ("eq", "ne") and len(e[2]) == 2:
+            # <enum symbol> == / != <enum constant>
+            for x, y in ((e[2][0], e[2][1]), (e[2][1], e[2][0])):
+                if isinstance(y, tuple) and y and y[0] == "enumconst":
+                    for name, m in self.enumsyms:
+                        if m(strip(x)):
+                            self.used.add(name)
+                            same = env.get(name) == y[2]
+                            return (same if e[1].split("::")[-1] == "eq" else not same) != neg
         raise Unsupported("condition %s" % df.show(e, 100))
 
     # ---- iterator terms ---------------------------------------------------------------------------------------------
